@@ -396,7 +396,9 @@ theorem connectingStep_IndexOK (s : Srv) (k : Nat) (r : Req) (env : Env) (hc : C
   split
   · split
     · exact fail_IndexOK _ _ _ _ _ hc hi
-    · exact IndexOK_same hi _ rfl rfl
+    · split
+      · exact fail_IndexOK _ _ _ _ _ hc hi
+      · exact IndexOK_same hi _ rfl rfl
   · exact fail_IndexOK _ _ _ _ _ hc hi
 
 theorem connectedStep_IndexOK (s : Srv) (k : Nat) (r : Req) (env : Env) (hc : ChansOK s) (hi : IndexOK s) :
@@ -413,12 +415,14 @@ theorem connectedStep_IndexOK (s : Srv) (k : Nat) (r : Req) (env : Env) (hc : Ch
   · split
     · exact fail_IndexOK _ _ _ _ _ hc hi
     · split
-      · split
-        · exact fail_IndexOK _ _ _ _ _ hc hi
-        · exact IndexOK_same hi _ rfl rfl
-      · exact hi
-      · exact hi
       · exact fail_IndexOK _ _ _ _ _ hc hi
+      · split
+        · split
+          · exact fail_IndexOK _ _ _ _ _ hc hi
+          · exact IndexOK_same hi _ rfl rfl
+        · exact hi
+        · exact hi
+        · exact fail_IndexOK _ _ _ _ _ hc hi
   · exact fail_IndexOK _ _ _ _ _ hc hi
 
 theorem step_IndexOK (s : Srv) (op : Op) (env : Env) (hc : ChansOK s) (hi : IndexOK s) : IndexOK (step s op env).1 := by
@@ -779,9 +783,11 @@ theorem connectingStep_RouterOK (s : Srv) (k : Nat) (r : Req) (env : Env) (hr : 
   split
   · split
     · exact fail_RouterOK _ _ _ _ _ hr
-    · refine setPhase_nonauth_RouterOK s k .connected hr (fun u h => by cases h) ?_
-      intro c u hc hp
-      rw [hfk] at hc; cases hc; rw [hpk] at hp; cases hp
+    · split
+      · exact fail_RouterOK _ _ _ _ _ hr
+      · refine setPhase_nonauth_RouterOK s k .connected hr (fun u h => by cases h) ?_
+        intro c u hc hp
+        rw [hfk] at hc; cases hc; rw [hpk] at hp; cases hp
   · exact fail_RouterOK _ _ _ _ _ hr
 
 theorem connectedStep_RouterOK (s : Srv) (k : Nat) (r : Req) (env : Env) (hr : RouterOK s)
@@ -801,12 +807,14 @@ theorem connectedStep_RouterOK (s : Srv) (k : Nat) (r : Req) (env : Env) (hr : R
   · split
     · exact fail_RouterOK _ _ _ _ _ hr
     · split
-      · split
-        · exact fail_RouterOK _ _ _ _ _ hr
-        · exact hreg _
-      · exact hr
-      · exact hr
       · exact fail_RouterOK _ _ _ _ _ hr
+      · split
+        · split
+          · exact fail_RouterOK _ _ _ _ _ hr
+          · exact hreg _
+        · exact hr
+        · exact hr
+        · exact fail_RouterOK _ _ _ _ _ hr
   · exact fail_RouterOK _ _ _ _ _ hr
 
 theorem step_RouterOK (s : Srv) (op : Op) (env : Env) (hr : RouterOK s) : RouterOK (step s op env).1 := by
@@ -1014,7 +1022,9 @@ theorem connectingStep_LiveOK (s : Srv) (k : Nat) (r : Req) (env : Env) (hc : Ch
   split
   · split
     · exact fail_LiveOK _ _ _ _ _ hc hi hl
-    · intro v h hm; exact hl v h hm
+    · split
+      · exact fail_LiveOK _ _ _ _ _ hc hi hl
+      · intro v h hm; exact hl v h hm
   · exact fail_LiveOK _ _ _ _ _ hc hi hl
 
 theorem connectedStep_LiveOK (s : Srv) (k : Nat) (r : Req) (env : Env) (hc : ChansOK s) (hi : IndexOK s) (hl : LiveOK s) :
@@ -1031,12 +1041,14 @@ theorem connectedStep_LiveOK (s : Srv) (k : Nat) (r : Req) (env : Env) (hc : Cha
   · split
     · exact fail_LiveOK _ _ _ _ _ hc hi hl
     · split
-      · split
-        · exact fail_LiveOK _ _ _ _ _ hc hi hl
-        · exact register_LiveOK _ _ _ hl
-      · exact hl
-      · exact hl
       · exact fail_LiveOK _ _ _ _ _ hc hi hl
+      · split
+        · split
+          · exact fail_LiveOK _ _ _ _ _ hc hi hl
+          · exact register_LiveOK _ _ _ hl
+        · exact hl
+        · exact hl
+        · exact fail_LiveOK _ _ _ _ _ hc hi hl
   · exact fail_LiveOK _ _ _ _ _ hc hi hl
 
 theorem step_LiveOK (s : Srv) (op : Op) (env : Env) (hc : ChansOK s) (hi : IndexOK s) (hr : RouterOK s) (hl : LiveOK s) :
